@@ -41,6 +41,19 @@ def run(tier):
         nm, args = g.pick([("child", ""), ("type_hint", "as []"), ("map", ", ,"), ("ghost", "A| |"), ("parent", "[map] x"), ("as_type", ""), ("literal", ""), ("pattern", "")])
         m.attrs.insert(g.r.randint(0, len(m.attrs)), Instr(nm, "raw", args=args))
         items.append(it)
+    for _ in range(nvalid // 10):
+        # an own member instruction without arguments (`#[from]`, `#[into]`, `#[map]`: "the default path") stays an o2o instruction under
+        # allow_unknown in every spelling; written first, it is the default instruction for its kinds and a later `#[map(other)]` only serves the rest
+        it = xgen.gen(g, g.pick(["struct_basic", "enum_basic"]))
+        it.attrs = [a for a in it.attrs if a.kind != "allow_unknown"]
+        it.attrs.insert(0, Instr("allow_unknown", "allow_unknown"))
+        members = it.fields if it.kind == "struct" else [f for v in it.variants for f in v.fields]
+        members = [m for m in members if not m.attrs]
+        if not members:
+            continue
+        m = g.pick(members)
+        m.attrs = [Instr(g.pick(["from", "into", "map", "from_owned", "ref_into"]), "raw", args=None), Instr("map", "map", container=None, member=(f"m{g.mark()}" if getattr(m, "name", None) is not None else 0), action=None)]
+        items.append(it)
     modes = ["bare", "o2o", "grouped", "mixed", "mixed"]
     variants = [[xform.respell(it, g, m) for m in modes] for it in items]
     srcs = [v.render() for vs in variants for v in vs]
